@@ -1,7 +1,7 @@
 #!/bin/bash
 # tools/mut.sh <file under /repo> <python-regex> <replacement> <id>...   one-off hand mutation: apply, build-check, run checks, undo
 F=$1; PAT=$2; REP=$3; shift 3
-trap 'git -C /repo reset -q; git -C /repo checkout -- . 2>/dev/null' EXIT PIPE INT TERM
+trap 'git -C /repo reset -q; git -C /repo checkout -- . 2>/dev/null; git -C /repo clean -fdq -- src 2>/dev/null' EXIT PIPE INT TERM
 cd /repo; if ! git diff --quiet; then echo "repo dirty"; exit 2; fi
 python3 - "$F" "$PAT" "$REP" <<'PY'
 import re,sys
